@@ -8,6 +8,7 @@ the transmitted payloads, in order, each once.
 from __future__ import annotations
 
 import asyncio
+import contextlib
 import io
 import itertools
 import random
@@ -207,37 +208,49 @@ def judge(col: common.Collector, part: str, frames: Sequence[Frame],
                 return
     if active_too:
         tx = [i + 0x100 for i in ids]
+        decoders: List[Tuple[str, Any, Any]] = []
         bus = StubBus()
-        ad = IsoTpActiveDecoder(bus, list(ids), tx)
-        out: Dict[int, List[bytes]] = {}
-        for n, (cid, data) in enumerate(frames):
-            before = len(bus.sent)
-            try:
-                for rid, pl in ad.decode_rx_frame(cid, data):
-                    out.setdefault(rid, []).append(bytes(pl))
-            except Exception as e:
-                bad("active-raises", f"frame {n}: {type(e).__name__}: {e}")
-                return
-            new = bus.sent[before:]
-            if cid in ids and kind_of(data) == "FF":
-                want_tx = tx[ids.index(cid)]
-                if len(new) != 1 or new[0][0] != want_tx or len(new[0][1]) < 1 or \
-                        new[0][1][0] != 0x30:
-                    bad("flow-control-missing", f"first frame {n} on {cid:x} answered by "
-                        f"{[(hex(a), d.hex()) for a, d in new]} (expected one 30.. on {want_tx:x})")
+        decoders.append(("", IsoTpActiveDecoder(bus, list(ids), tx), bus))
+        try:
+            # the active decoder as the snoop tool builds it (a subclass that also prints)
+            import odxtools.cli.snoop as snoop
+            bus2 = StubBus()
+            decoders.append(("snoop-tool: ", snoop.init_verbose_state_machine(
+                IsoTpActiveDecoder, bus2, list(ids), tx), bus2))
+        except ImportError:
+            col.count("snoop-decoder-unavailable")
+        for dname, ad, bus in decoders:
+            out: Dict[int, List[bytes]] = {}
+            tag = "snoop-" if dname else ""
+            for n, (cid, data) in enumerate(frames):
+                before = len(bus.sent)
+                try:
+                    with contextlib.redirect_stdout(io.StringIO()):
+                        for rid, pl in ad.decode_rx_frame(cid, data):
+                            out.setdefault(rid, []).append(bytes(pl))
+                except Exception as e:
+                    bad(tag + "active-raises", f"{dname}frame {n}: {type(e).__name__}: {e}")
                     return
-                col.count("first_frames_acknowledged")
-            else:
-                for a, d in new:
-                    if len(d) < 1 or d[0] != 0x30 or a not in tx:
-                        bad("flow-control-wrong", f"frame {n} triggered send {a:x}#{d.hex()}")
+                new = bus.sent[before:]
+                if cid in ids and kind_of(data) == "FF":
+                    want_tx = tx[ids.index(cid)]
+                    if len(new) != 1 or new[0][0] != want_tx or len(new[0][1]) < 1 or \
+                            new[0][1][0] != 0x30:
+                        bad(tag + "flow-control-missing", f"{dname}first frame {n} on {cid:x} answered by "
+                            f"{[(hex(a), d.hex()) for a, d in new]} (expected one 30.. on {want_tx:x})")
                         return
-        col.ev()
-        for i in ids:
-            if out.get(i, []) != expected[i]:
-                bad("active-telegrams-differ", f"id {i:x}: active decoder reported "
-                    f"{len(out.get(i, []))} telegrams, expected {len(expected[i])}")
-                return
+                    col.count(tag + "first_frames_acknowledged")
+                else:
+                    for a, d in new:
+                        if len(d) < 1 or d[0] != 0x30 or a not in tx:
+                            bad(tag + "flow-control-wrong", f"{dname}frame {n} triggered send {a:x}#{d.hex()}")
+                            return
+            col.ev()
+            for i in ids:
+                if out.get(i, []) != expected[i]:
+                    bad(tag + "active-telegrams-differ", f"{dname}id {i:x}: active decoder reported "
+                        f"{len(out.get(i, []))} telegrams, expected {len(expected[i])}")
+                    return
     col.nontrivial((part, kinds[:40], meta.get("L"), meta.get("tx_dl"), meta.get("padding")))
 
 
